@@ -55,6 +55,16 @@ func genBlock(r *lib.Rng, frame *int64) drv.Op {
 	if r.Chance(1, 20) {
 		o.First = []int64{0, -5, 1 << 40, 999999999999}[r.Intn(4)]
 	}
+	if r.Chance(1, 6) { // a read that came back without a whole frame: no samples, but the side information counts
+		o.Empty = true
+		if len(o.Ext) == 0 && o.Drops == 0 {
+			if r.Bool() {
+				o.Ext = []int64{*frame*64 + 1, *frame*64 + 2}
+			} else {
+				o.Drops = r.Range(1, 50)
+			}
+		}
+	}
 	return o
 }
 
@@ -132,6 +142,9 @@ func corpus() []drv.Case {
 	blk := func(first int64, drops int, ext ...int64) drv.Op {
 		return drv.Op{Op: "BLK", First: first, Drops: drops, Ext: ext}
 	}
+	eblk := func(first int64, drops int, ext ...int64) drv.Op {
+		return drv.Op{Op: "BLK", First: first, Drops: drops, Ext: ext, Empty: true}
+	}
 	run := func(first int64, n int, from int64) drv.Op {
 		o := drv.Op{Op: "BLK", First: first}
 		for i := 0; i < n; i++ {
@@ -151,6 +164,10 @@ func corpus() []drv.Case {
 		// long external-trigger lists (more than one 4096-byte buffer) mixed with short ones inside one run
 		{Proj: p, Base: 1, Map: -1, Ops: []drv.Op{st, blk(10, 0, 1, 2, 3), blk(20, 0), run(30, 700, 5000), blk(40, 1, 9001, 9002), run(50, 1500, 20000), blk(60, 0, 30001, 30002, 30003, 30004, 30005), wc("STOP"),
 			st, run(70, 513, 40000), wc("STOP"), st, blk(80, 0, 7), run(90, 512, 50000), run(91, 2000, 60000), blk(92, 0, 8), wc("STOP")}},
+		// blocks without samples still deliver their external-trigger counts and drop reports
+		{Proj: p, Base: 1, Map: -1, Ops: []drv.Op{st, blk(10, 0, 11, 22), eblk(20, 0, 33, 44), blk(30, 0, 55), eblk(40, 7), eblk(50, 0), eblk(60, 2, 66), wc("STOP"),
+			eblk(70, 3, 77), st, eblk(80, 1, 88), wc("STOP")}},
+		{Proj: []bool{false}, Base: 1, Map: -1, Ops: []drv.Op{st, eblk(5, 4, 1, 2, 3), wc("STOP")}},
 		// STOP while idle, START rejected while active, labels equal to START / STOP
 		{Proj: p, Base: 1, Map: -1, Ops: []drv.Op{wc("STOP"), st, st, lb("STOP"), lb("START"), blk(1, 1, -1, 1<<62), wc("stop"), wc("STOP")}},
 	}
@@ -306,6 +323,9 @@ ops:
 			es := s.Blk(o)
 			terms = append(terms, fmt.Sprintf("Bq %s %s %s %s", drv.CompactZList(o.Ext), lib.Z(int64(o.Drops)), lib.Z(o.First), lib.B(es != "")))
 			outs = append(outs, stepOut{Op: "BLK", OK: es == "", Err: es})
+			if o.Empty && act && (len(o.Ext) > 0 || o.Drops > 0) {
+				tags["empty-block-with-events"] = true
+			}
 			if len(o.Ext) > 512 && act {
 				tags["ext-burst-over-4096-bytes"] = true
 			}
